@@ -144,6 +144,8 @@ def traces():
     p = os.path.join(common.OUT, "trace_runtime", "runtime_trace.json")
     need(p, "C12")
     tr = json.load(open(p))[:300]
+    while tr and tr[-1]["e"] != "return":      # cut at the end of a solve (some model steps consume several events)
+        tr.pop()
     ok = lin_accept("TraceRuntime", "TraceRuntime", tr, "rt.json")
     print("TRACE runtime: good trace accepted: %s" % ok)
     bad += not ok
@@ -203,10 +205,10 @@ def faithful():
     try:
         env = dict(os.environ, BLDFM_REPO=wt, PYTHONPATH=common.VERIF, BLDFM_VERIF="1", PYTHONHASHSEED="0")
         cwd = common.scratch("selftest_faithful")
-        p = subprocess.run([common.PY, "-m", "harness.faithful", "Recip", "Conserve", "Linear", "Translate", "Symmetry", "Levels", "Shape"], cwd=cwd, env=env, stdout=subprocess.PIPE, stderr=subprocess.STDOUT, text=True)
+        p = subprocess.run([common.PY, "-m", "harness.faithful", "Recip", "Conserve", "Linear", "Translate", "Symmetry", "Mirror", "Levels", "Shape"], cwd=cwd, env=env, stdout=subprocess.PIPE, stderr=subprocess.STDOUT, text=True)
         lines = [l for l in p.stdout.splitlines() if l.startswith(("FAITHFUL", "DISAGREE"))]
         print("\n".join(lines))
-        return 0 if p.returncode == 0 and len([l for l in lines if l.startswith("FAITHFUL")]) == 7 else 1
+        return 0 if p.returncode == 0 and len([l for l in lines if l.startswith("FAITHFUL")]) == 8 and not any(l.startswith("DISAGREE") for l in lines) else 1
     finally:
         subprocess.run(["git", "-C", "/repo", "worktree", "remove", "--force", wt], stdout=subprocess.DEVNULL, stderr=subprocess.DEVNULL)
         shutil.rmtree(wt, ignore_errors=True)
@@ -218,13 +220,19 @@ COVER = [("MCSolver", "MC_Levels_quick"), ("MCSolver", "MC_Shape_quick"), ("Conf
 
 def coverage():
     bad = 0
+    taken = {}
     for module, cfg in COVER:
         r = run_tlc(module, cfg, coverage=True, env={"EMIT_EVERY": "1000000", "EMIT_PHASE": "0", "JAVA_TOOL_OPTIONS": "-XX:+UseParallelGC -Xmx8g"}, timeout=1800)
-        dead = sorted(a for a, (dist, tot) in r.coverage.items() if tot == 0 and a not in ("Init",))
-        # actions that are legitimately unreachable in a given family (e.g. precision errors are not enumerated)
-        allowed = {"RaisePrecision"} if module == "MCSolver" else set()
-        dead = [a for a in dead if a not in allowed]
-        print("COVERAGE %-20s actions=%d dead=%s" % (cfg, len(r.coverage), dead))
+        t = taken.setdefault(module, {})
+        for a, (dist, tot) in r.coverage.items():
+            t[a] = t.get(a, 0) + tot
+        print("COVERAGE %-20s actions=%d taken=%d" % (cfg, len(r.coverage), sum(1 for v in r.coverage.values() if v[1] > 0)))
+    # an action must be taken in at least one main configuration of its module.  Legitimately unreachable in the
+    # repaired design (they exist for the negative controls / for inputs no family enumerates):
+    allowed = {"MCSolver": {"RaisePrecision", "IndexError"}}
+    for module, t in taken.items():
+        dead = sorted(a for a, n in t.items() if n == 0 and a not in allowed.get(module, set()) and a != "Init")
+        print("COVERAGE module %-10s dead actions: %s" % (module, dead))
         bad += bool(dead)
     return bad
 
